@@ -1,2 +1,90 @@
+"""C04, public API part: Fandango.parse(word) yields exactly the trees of the grammar's forest
+that satisfy the spec's constraints (judged by RefConstraint)."""
+from __future__ import annotations
+
+from mc.common import pmap
+from mc.fd import build, snap
+from mc.refconstraint import And, Atom, Child, Desc, Idx, Or, Quant, Slc, Sym, holds, merge_whole, text
+from mc.refgrammar import TreeChecker, WordMatcher, snap_text, words
+
+GRAMMAR = '<start> ::= <a> <b>\n<a> ::= <d>+ <c>?\n<b> ::= <d> | <c> <d>\n<c> ::= "x"\n<d> ::= "1" | "2" | "a" | "12"\n'
+
+
+def constraints() -> list:
+    a, b, d, c = Sym("<a>"), Sym("<b>"), Sym("<d>"), Sym("<c>")
+    at = [
+        Atom('str({0}) == "1"', (Child(a, "<d>"),), cmp=True),
+        Atom('int({0}) > 1', (d,), cmp=True),
+        Atom('{0} != "a"', (Desc(a, "<d>"),), cmp=True),
+        Atom('{n0} == 2', lens=(d,), cmp=True),
+        Atom('str({0}).isdigit()', (Idx(a, 0),)),
+        Atom('{0} == {1}', (Idx(a, 0), Child(b, "<d>")), cmp=True),
+        Atom('"12" in {s0}', stars=(d,)),
+        Atom('str({0}) == "x"', (c,), cmp=True),
+    ]
+    out = list(at)
+    for x in at[:4]:
+        for y in at[3:]:
+            if x is not y:
+                out += [And(x, y), Or(x, y)]
+    for kind in ("any", "all"):
+        out.append(Quant(kind, "x", Child(a, "<d>"), Atom('int(x) > 1', cmp=True)))
+        out.append(Quant(kind, "x", d, Atom('str(x) == "12"', cmp=True)))
+    for kind in ("exists", "forall"):
+        out.append(Quant(kind, "<q>", a, Atom('int({0}) > 1', (Child(Sym("<q>"), "<d>"),), cmp=True)))
+    return out
+
+
+def work(idx):
+    f = constraints()[idx]
+    ctext = text(f)
+    spec = build(GRAMMAR, [ctext])
+    plain = build(GRAMMAR)
+    whole = merge_whole(f)
+    readings = [f] + ([whole] if whole is not None and whole is not f else [])
+    res = {"constraint": ctext, "words": 0, "trees": 0, "yielded": 0, "viol": []}
+    for w in words(["1", "2", "a", "x"], 5):
+        forest = list(plain.grammar.parse_forest(w))
+        if not forest:
+            try:
+                got = list(spec.parse(w))
+            except Exception:
+                got = []
+            if got:
+                res["viol"].append({"kind": "api_yields_tree_for_non_member", "constraint": ctext, "word": w, "sig": "api_yields_tree_for_non_member"})
+            continue
+        res["words"] += 1
+        res["trees"] += len(forest)
+        try:
+            got = [snap(t) for t in spec.parse(w)]
+        except Exception as e:
+            res["viol"].append({"kind": "api_parse_raises", "constraint": ctext, "word": w, "error": repr(e)[:200], "sig": f"api_parse_raises:{type(e).__name__}"})
+            continue
+        res["yielded"] += len(got)
+        for t in forest:
+            s = snap(t)
+            verdicts = {holds(r, t) for r in readings}
+            if s in got and verdicts == {False}:
+                res["viol"].append({"kind": "api_yields_tree_violating_constraint", "constraint": ctext, "word": w, "tree": repr(s)[:300],
+                                    "sig": "api_yields_tree_violating_constraint"})
+            if s not in got and verdicts == {True}:
+                res["viol"].append({"kind": "api_drops_satisfying_tree", "constraint": ctext, "word": w, "tree": repr(s)[:300],
+                                    "sig": "api_drops_satisfying_tree"})
+        for s in got:
+            if s not in [snap(t) for t in forest]:
+                res["viol"].append({"kind": "api_yields_tree_outside_forest", "constraint": ctext, "word": w, "sig": "api_yields_tree_outside_forest"})
+    return res
+
+
 def run_api(ctx):
-    return {"states": 0, "transitions": 0, "samples": [], "summary": "not built yet"}
+    n = len(constraints())
+    results = pmap(work, list(range(n)), chunk=1)
+    words_n = trees = yielded = 0
+    for r in results:
+        words_n += r["words"]
+        trees += r["trees"]
+        yielded += r["yielded"]
+        for v in r["viol"]:
+            ctx.violation(v)
+    return {"states": words_n, "transitions": trees, "samples": [{"api_constraint": results[0]["constraint"], "words": results[0]["words"], "yielded": results[0]["yielded"]}],
+            "summary": {"constraints": n, "member_words": words_n, "forest_trees_judged": trees, "trees_yielded_by_api": yielded}}
